@@ -78,6 +78,33 @@ class PModel(BaseModel):
     opt: Any = None
 
 
+@attrs.define
+class APriv:
+    """private attribute: the __init__ argument is `x`, the attribute `_x`"""
+
+    _x: Any
+    y: Any = 2
+
+
+class PAlias(BaseModel):
+    """field with an alias: has to be initialized with `n`"""
+
+    name: Any = Field(alias="n")
+    other: Any = 3
+
+
+@dataclass
+class DInit:
+    a: Any
+    b: Any = field(init=False, default=5)
+
+
+def make_dinit(a, b):
+    d = DInit(a)
+    d.b = b
+    return d
+
+
 NT = namedtuple("NT", "a b", defaults=[0])
 
 
@@ -174,7 +201,7 @@ def mutate_in_place(v, depth=0):
 
 
 __all__ = [
-    "IdentityEq", "LossyCopy", "mutate_in_place",
+    "IdentityEq", "LossyCopy", "mutate_in_place", "APriv", "PAlias", "DInit", "make_dinit",
     "Color", "Level", "Perm", "Outer", "Point", "FPoint", "Box", "APoint", "AFrozen",
     "PModel", "NT", "TNT", "Opaque", "Vec", "defaultdict", "inf",
 ]
